@@ -1,6 +1,7 @@
 (** Correspondence check for C01. *)
-From Coq Require Import String List NArith Bool.
-From Fabio Require Import Lib.Outcome Lib.Bytes Lib.Verdict Model.Consul Model.Watch Model.ConsulSpec.
+From Coq Require Import String List NArith ZArith Bool.
+From Fabio Require Import Lib.Outcome Lib.Bytes Lib.Verdict Model.WtF64 Model.TableCmd Model.RouteText Model.RouteCmd
+     Model.Consul Model.Watch Model.ConsulSpec Model.RegistryTable.
 Import ListNotations.
 Local Open Scope N_scope.
 
@@ -39,7 +40,7 @@ Definition ev_of (texts : list str) (e : sev) : event :=
 
 (* route.NewTable's verdict on a combined text, as computed by the real NewTable *)
 Definition build_of (texts : list str) (builds : list (nat * nat * option tbl)) (t : str) : option (option tbl) :=
-  match find (fun b => match b with (i, j, _) => beq (next_text (nth i texts []) (nth j texts [])) t end) builds with
+  match List.find (fun b => match b with (i, j, _) => beq (next_text (nth i texts []) (nth j texts [])) t end) builds with
   | Some (_, _, r) => Some r
   | None => None
   end.
@@ -87,6 +88,52 @@ Fixpoint expect texts builds (done_rev : list event) (evs : list sev) : list (tb
   end.
 Definition obs_eqb (a b : tbl * bool) : bool := tbl_eqb (fst a) (fst b) && Bool.eqb (snd a) (snd b).
 
+(* ---- end to end: registry state -> (C14 commands) -> text -> (C05 NewTable) -> table ---- *)
+(* url.Parse(...).String() and glob.Compile on the strings of the case, from the real libraries *)
+Fixpoint assoc_str {A} (k : str) (l : list (str * A)) : option A :=
+  match l with
+  | [] => None
+  | (k', v) :: l' => if beq k k' then Some v else assoc_str k l'
+  end.
+Definition canon_of (urls : list (str * option str)) (d : str) : option str :=
+  match assoc_str d urls with Some r => r | None => None end.
+Definition glob_of (bad : list str) (p : str) : bool := negb (existsb (beq p) bad).
+Definition ascii_print (r : N) : bool := true.    (* the generated tags are ASCII: IsPrint is never asked *)
+
+Definition tgt_cmp (a b : tgt) : comparison :=
+  match a, b with
+  | (a1, a2, a3, a4), (b1, b2, b3, b4) =>
+      match str_cmp a1 b1 with Eq =>
+      match str_cmp a2 b2 with Eq =>
+      match str_cmp a3 b3 with Eq => str_cmp a4 b4 | c => c end | c => c end | c => c end
+  end.
+Fixpoint tgt_insert (x : tgt) (l : list tgt) : list tgt :=
+  match l with
+  | [] => [x]
+  | y :: r => match tgt_cmp x y with Gt => y :: tgt_insert x r | _ => x :: l end
+  end.
+Definition tgt_sort (l : list tgt) : list tgt := fold_right tgt_insert [] l.
+Definition obs_table (t : table) : tbl :=
+  tgt_sort (map (fun x => match x with (h, p, tg) => (h, p, t_svc tg, t_url tg) end) (flat t)).
+Definition tbl_subset (a b : tbl) : bool := forallb (fun x => existsb (tgt_eqb x) b) a.
+
+(* the property's reading, per catalog entry: a service check under the entry's name on its
+   node / id, and [healthy_b] in the unfiltered health state *)
+Definition inst_healthy_b (status : list str) (strict : bool) (checks : list hcheck) (r : rentry) : bool :=
+  negb (beq (g_name (r_reg r)) [])
+  && existsb (fun c => is_service_check c && beq (c_sname c) (g_name (r_reg r))
+                       && own_b (r_node r) (g_id (r_reg r)) c) checks
+  && healthy_b checks status strict (r_node r) (g_id (r_reg r)).
+Definition expected_targets (canon : str -> option str) (env : env_t) (prefix : str)
+           (status : list str) (strict : bool) (checks : list hcheck) (rcat : list rentry) : tbl :=
+  flat_map (fun r =>
+    if inst_healthy_b status strict checks r then
+      flat_map (fun i => match canon (i_dst i) with
+                         | Some u => [(lower (fst (hostpath (i_route i))), snd (hostpath (i_route i)), g_name (r_reg r), u)]
+                         | None => []
+                         end) (intents env prefix (r_reg r))
+    else []) rcat.
+
 Inductive case :=
 (* passingServices(checks, status, strict): positions of the returned checks *)
 | CPass (checks : list hcheck) (status : list str) (strict : bool) (impl : list nat)
@@ -100,7 +147,12 @@ Inductive case :=
 | CWatch (texts : list str) (builds : list (nat * nat * option tbl)) (evs : list sev)
          (impl : list (tbl * bool))
 (* one manual config pushed by the real watchKV against the fake Consul's KV store *)
-| CKv (pairs : list (str * str)) (impl : str).
+| CKv (pairs : list (str * str)) (impl : str)
+(* end to end: the text pushed by the real backend for the state (checks, rcat) and the table the
+   real route.NewTable builds from it, against the composed model of Model/RegistryTable.v *)
+| CE2E (env : env_t) (prefix : str) (urls : list (str * option str)) (badglobs : list str)
+       (status : list str) (strict : bool) (checks : list hcheck) (rcat : list rentry)
+       (impl_text : str) (impl_tbl : option tbl).
 
 Definition check_case (c : case) : N :=
   match c with
@@ -154,4 +206,24 @@ Definition check_case (c : case) : N :=
                     (match flat_map (fun p => [[]; s_kv_sep ++ fst p] ++ split_byte (trim_space (snd p)) 10) pairs with
                      | [] => [[]] | _ :: r => r end) in
       verdict same spec None (negb (Nat.eqb (length pairs) 0))
+  | CE2E env prefix urls bad status strict checks rcat itext itbl =>
+      let canon := canon_of urls in
+      let gl := glob_of bad in
+      let mtext := registry_config ascii_print env prefix status strict checks rcat in
+      let mtbl := match mtext with
+                  | Ok t => match new_table pweight_dec canon gl t with Ok tb => Some (obs_table tb) | _ => None end
+                  | _ => None
+                  end in
+      let same := match mtext with Ok t => beq t itext | _ => false end && opt_eqb tbl_eqb itbl mtbl in
+      let on_domain := forallb (fun r => negb (inst_healthy_b status strict checks r)
+                                         || expressible ascii_print pweight_dec canon gl env prefix (r_reg r)) rcat in
+      let exp := expected_targets canon env prefix status strict checks rcat in
+      (* C01_svc_table_iff, evaluated on the implementation's table *)
+      let spec := if on_domain
+                  then match itbl with Some t => tbl_subset t exp && tbl_subset exp t | None => false end
+                  else same in
+      let insts := map (fun c => (c_node c, c_sid c)) checks ++ map (fun r => (r_node r, g_id (r_reg r))) rcat in
+      let region := if key_collision_b insts then Some 1 else None in
+      verdict same spec region (on_domain && negb (Nat.eqb (length exp) 0)
+                                && existsb (fun r => negb (inst_healthy_b status strict checks r)) rcat)
   end.
